@@ -12,6 +12,7 @@ import (
 	"github.com/jackc/pgx/v4/pgxpool"
 
 	"github.com/shutter-network/shutter/shlib/shcrypto"
+	blst "github.com/supranational/blst/bindings/go"
 
 	kprdb "github.com/shutter-network/rolling-shutter/rolling-shutter/keyper/database"
 	"github.com/shutter-network/rolling-shutter/rolling-shutter/keyper/epochkg"
@@ -278,7 +279,7 @@ type c01msg struct {
 	Kind   string `json:"kind"`   // shares | keys
 	Sender int    `json:"sender"` // keyper index of a shares message
 	IDs    string `json:"ids"`    // "A", "B", "AB"
-	Bad    string `json:"bad"`    // "", "W" (one share computed for the other identity), "X" (one share from another eon key set), "K" (keys message with a wrong key)
+	Bad    string `json:"bad"`    // "", "S" (the two shares swapped), "D" (first share +D, last share -D), "W" (one share computed for the other identity), "X" (one share from another eon key set), "K" (keys message with a wrong key)
 }
 
 func (m c01msg) String() string { return fmt.Sprintf("%s(k%d,%s%s)", m.Kind, m.Sender, m.IDs, m.Bad) }
@@ -318,6 +319,9 @@ func newC01h(n, t int, mixed bool) *c01h {
 	for i := 0; i < n; i++ {
 		h.Alpha = append(h.Alpha, c01msg{"shares", i, "AB", "W"}, c01msg{"shares", i, "AB", "X"})
 	}
+	// shares whose errors cancel when the shares of one message are added up: the
+	// two shares attached to each other's identity, and share_A+D / share_B-D
+	h.Alpha = append(h.Alpha, c01msg{"shares", 0, "AB", "S"}, c01msg{"shares", n - 1, "AB", "D"})
 	h.Alpha = append(h.Alpha, c01msg{"keys", 0, "A", ""}, c01msg{"keys", 0, "AB", ""}, c01msg{"keys", 0, "AB", "K"})
 	pool := kpx.NewPool(kprdb.Definition)
 	members := make([]int, n)
@@ -345,6 +349,21 @@ func (h *c01h) message(m c01msg) p2pmsg.Message {
 	l := ids(m.IDs)
 	for i, id := range l {
 		sh := h.Set.Share(m.Sender, id)
+		switch m.Bad {
+		case "S":
+			sh = h.Set.Share(m.Sender, l[len(l)-1-i])
+		case "D":
+			d := new(blst.P1)
+			d.FromAffine((*blst.P1Affine)(h.Other.Share(m.Sender, idA)))
+			p := new(blst.P1)
+			p.FromAffine((*blst.P1Affine)(sh))
+			if i == 0 {
+				p = p.Add(d)
+			} else if i == len(l)-1 {
+				p = p.Sub(d)
+			}
+			sh = (*shcrypto.EpochSecretKeyShare)(p.ToAffine())
+		}
 		if i == len(l)-1 {
 			switch m.Bad {
 			case "W":
